@@ -298,6 +298,10 @@ PROPS = {
              'why': 'the preservation relation `inhabits` was written against these tagging rules'},
             {'name': 'P1.dispatcher', 'kind': 'pinned_text', 'file': 'oal-compiler/src/eval.rs', 'path': [('fn', 'eval_any')],
              'why': 'eval_any is assumed (not verified): node kinds are dispatched to the eval_* functions verified here'},
+            {'name': 'P1.constraint_rules', 'kind': 'pinned_text', 'file': 'oal-compiler/src/inference/mod.rs', 'path': [('fn', 'constrain')],
+             'why': 'the ASSUMED preservation (a node evaluates to a value its final tag admits) was written against the equations `constrain` generates per node kind; the function is not under contract'},
+            {'name': 'P1.substitute', 'kind': 'pinned_text', 'file': 'oal-compiler/src/inference/mod.rs', 'path': [('fn', 'substitute')],
+             'why': 'the final tag of a node is the representative written back by `substitute`; the function is not under contract'},
         ],
         'obligation_prefixes': ['C01.', 'C07.unify.head_sound', 'C07.unify.occurs_before_bind', 'C07.unify.nopanic', 'C07.occurs.complete'],
         'technique': 'Verus contracts on the real cast_*, kind predicates, check_*/type_check and eval_* bodies: progress at every cast site relative to a stated (assumed) tag/value preservation relation',
